@@ -1,5 +1,6 @@
 import UF.Spec.Priority
 import UF.Proofs.Priority
+import UF.Proofs.PriorityExamples
 /-
   C07 — rule priority is a strict weak order; the winner is never outranked.
   Property theorems only (helper lemmas live in UF/Proofs/Priority.lean).  Every theorem is about
@@ -179,6 +180,24 @@ theorem c07_add_denyallow (r : NetRule) (ds : List Bytes) (h : r.denyallow = [])
   | nil => exact absurd rfl hds
   | cons d ds => unfold modifierCount; simp [h]
 
+/-- Adding a modifier — of any kind — makes the rule strictly higher than the original (and, by
+    `c07_asymm`, the original not higher than the new rule). -/
+theorem c07_add_modifier (r r' : NetRule) (h : AddsModifier r r') :
+    isHigherPriority r' r = true ∧ isHigherPriority r r' = false := by
+  have key : isHigherPriority r' r = true := by
+    cases h with
+    | option k h => exact c07_add_option r k h
+    | disabledOption k h => exact c07_add_disabled_option r k h
+    | contentType k h => exact c07_add_content_type r k h
+    | restrictedContentType k h => exact c07_add_restricted_content_type r k h
+    | domain ds h hds => exact c07_add_domain r ds h hds
+    | restrictedDomain ds h1 h2 hds => exact c07_add_restricted_domain r ds h1 h2 hds
+    | dnstype p q h1 h2 hpq => exact c07_add_dnstype r p q h1 h2 hpq
+    | ctag p q h1 h2 hpq => exact c07_add_ctag r p q h1 h2 hpq
+    | client p q h1 h2 hpq => exact c07_add_client r p q h1 h2 hpq
+    | denyallow ds h hds => exact c07_add_denyallow r ds h hds
+  exact ⟨key, c07_asymm _ _ key⟩
+
 /-! #### the selected rule -/
 
 /-- The rule selected by the replace-if-higher scan is a candidate that no candidate outranks. -/
@@ -213,12 +232,6 @@ theorem c07_fact_symmetric_reads : Facts.higherPriorityReadsF = Facts.higherPrio
 
 /-! #### non-vacuity and the old shape (D6) -/
 
-/-- `||e^$script,image,media` (three content types) and `||e^$domain=e.org`. -/
-def exA : NetRule := { permTypes := Facts.TypeScript ||| Facts.TypeImage ||| Facts.TypeMedia }
-def exB : NetRule := { permDomains := [lit "e.org"] }
-/-- `||e^$client=a` and `||e^$dnstype=A`. -/
-def exC : NetRule := { permClients := some { hosts := [lit "a"], nets := [] } }
-def exD : NetRule := { permDns := [1] }
 
 /-- The repaired relation orders the D6 pair one way only; a three-element chain exists. -/
 example : isHigherPriority exB exA = true ∧ isHigherPriority exA exB = false ∧
@@ -233,6 +246,9 @@ example : isHigherPriorityOld exA exB = true ∧ isHigherPriorityOld exB exA = t
     both carry one modifier. -/
 example : isHigherPriorityOld exD exC = true ∧ isHigherPriorityOld exC exD = false ∧
     modifierCount exC = modifierCount exD := by decide
+
+/-- `c07_add_modifier` is not vacuous: `$important` added to the D6 rule. -/
+example : AddsModifier exA { exA with enabled := exA.enabled ||| 2 ^ 2 } := .option 2 (by decide)
 
 /-- `selectBest` on a non-trivial list: the winner is the domain-specific rule in both orders. -/
 example : selectBest [exA, exB, exC] = some exB ∧ selectBest [exC, exB, exA] = some exB := by decide
